@@ -7,6 +7,27 @@ from . import common as C
 HOOK_COMMITS = []  # filled from git below
 
 CHECKS = {
+    "C01": dict(
+        category="model_checking",
+        text="Eval.tla (the language reference as a big-step evaluator), Translate.tla (translate.rs arm by arm, jump "
+             "patching in closed form) and VM.tla (vm.rs/runtime.rs one step per opcode, nested VMs as frames, every "
+             "unwrap/unreachable as an explicit Panic outcome) are model-checked for Agreement (VM(Translate(p)) ends as "
+             "Eval(p) says), NoPanic, CleanAtEnd and PrefixStable over the programs of Gen.tla - a generator machine that "
+             "types terms by evaluating them against the reference and admits a bounded number of ill-typed joins: "
+             "exhaustive construct families (operators, arithmetic, numbers, booleans with short-circuit, tuples/lists/"
+             "selectors/copy/self/in/is, select, calls, map/filter/reduce, format/range/cast/fail/TRACE, module "
+             "definition+instantiation) plus a simulation of the full grammar. Every explored program is replayed: the "
+             "rendered text must parse back to the generated AST, FileBuilder::eval_string must give the predicted "
+             "success/failure and values, AST::translate must emit the predicted op sequence op for op with the "
+             "predicted statement positions. Deviations of the code from the reference are named (VM.tla devs) and "
+             "matched against known findings.",
+        design_ref="DESIGN.md §4.1-§4.3, §5/C01",
+        note="Trusted: TLC, vp/render.py (checked on every case by parsing back), harness projections. Assumptions read "
+             "off the code where the reference is silent are listed in the evidence. Float division/modulus, regex, "
+             "comparison of function values are outside the modelled domain (never generated).",
+        technique="TLA+ specs (Eval/Translate/VM/Gen) model-checked and simulated with TLC; spec->impl replay of every "
+                  "explored program (values, op sequences, op positions)",
+    ),
     "C02": dict(
         category="model_checking",
         text="Precedence.tla: the precedence climber of parse/precedence.rs, transcribed loop by loop, is "
@@ -20,6 +41,116 @@ CHECKS = {
         note="Trusted: TLC, the renderer/tree comparison in vp/c02.py, the AST projection of the harness. "
              "Operands are symbols or self-delimiting compound forms.",
         technique="TLA+ spec (Precedence.tla) model-checked with TLC; spec->impl replay of every explored chain",
+    ),
+    "C03": dict(
+        category="model_checking",
+        text="DataModel.tla: reference Representable/Denote/Expect (which JSON/YAML/TOML document(s) a value denotes, or "
+             "ERROR: constraint anywhere, NULL in TOML, non-table TOML top level, non-finite float in JSON; yamlmulti = "
+             "one document per list item) and the converters of convert/{json,yaml,yamlmulti,toml}.rs transcribed at "
+             "document level with named deviations. TLC checks ExpectWellFormed (ToDoc total), ErrorIffUnrepresentable, "
+             "RoundTrip and ConvAgrees (Deviations={}) over a generator machine of value trees: exhaustive <=4 nodes/"
+             "depth 3 over 32 leaf classes and a <=5 nodes shape family; simulation to depth 5. Every tree is refined "
+             "(seeded member per class; ints 0/small/2^53+1/i64 extremes, 8 float classes, 12 string classes, 4 key "
+             "classes) and converted by the real code via three routes (ConverterRegistry on a built Val; convert+out "
+             "programs through eval_string; ucg binary sample). Bytes are decoded by Python json (strict), PyYAML's "
+             "pure-Python parser with the YAML 1.2 core schema, tomllib, and compared with the predicted documents: "
+             "nesting, order, key set, strings, bool/null, numbers as exact rationals, document count; predicted ERROR "
+             "must be an error with no output.",
+        design_ref="DESIGN.md §4.10, §5/C03, §6",
+        note="Trusted: TLC, vp/datamodel.py tables and comparator, the three Python decoders, harness Val construction. "
+             "Not decided by the spec: byte-level validity (delegated to the decoders). Don't-cares: non-finite floats in "
+             "YAML/TOML; YAML 1.1-only re-typing; unique keys. Leaf classes are sampled per seed; structure is "
+             "exhaustive within the bound.",
+        technique="TLA+ spec (DataModel.tla) model-checked with TLC; spec->impl replay of every explored value tree "
+                  "through three routes; independent decoders as byte-level environment",
+    ),
+    "C06": dict(
+        category="model_checking",
+        text="Constraint.tla: Admit (the checker's narrow/derive_shape and the VM's BuildConstraint/CheckConstraint/"
+             "Val::equal with the parser's single-arm unwrap, transcribed as a checker fold and a VM fold over statement "
+             "lists) = Conforms (the rule of the statement) over every (constraint, value form) pair of the bounded "
+             "grammar with Deviations={}: primitive, tuple and list exemplars nested to depth 2 (thorough 3), int/float "
+             "ranges closed and half-open with boundary values, alternations of 1..4 literals and ranges, recursive named "
+             "constraints. Each pair is built in inline / named / let-bound spelling through FileBuilder::build (type "
+             "checker + VM) and a seeded sample through `ucg build`; acceptance must equal Conforms, a rejection must "
+             "carry a diagnostic and stop the build, spellings must agree.",
+        design_ref="DESIGN.md §4.7, §5/C06",
+        note="Trusted: TLC, the program renderer in vp/c06.py, harness build op. Don't-cares: NULL against a range or "
+             "alternation; NULL not used as an exemplar. Open finding copy-override-keeps-base-field (pinned by a unit "
+             "test of the repository).",
+        technique="TLA+ spec (Constraint.tla) model-checked exhaustively with TLC; spec->impl replay of every pair",
+    ),
+    "C08": dict(
+        category="model_checking",
+        text="Shell.tla: a POSIX shell's word parser as a character-level state machine, the two escaping helpers and "
+             "the env/flags/exec converters transcribed clause by clause, and the words the property says must arrive. "
+             "TLC checks OneWord for ALL 66,430 strings <=5 over {' \" \\ $ ` space newline * a} in the six positions and "
+             "EveryScalarOnceInOrder for all 19,608 tuples <=5 fields over {str,int,float,bool,NULL,list,tuple}, plus "
+             "seeded Unicode strings <=40. Every replayed case runs the real converters; the text is evaluated by dash "
+             "and bash (words must be the predicted ones) and read by the same shell machine (ShellTrace.tla: predicted "
+             "words, expansions = 0), so a different but correct quoting style is re-verified, not compared textually. "
+             "Exhaustive in the bound in the model; replay exhaustive in thorough, <=4 plus seeded samples in quick.",
+        design_ref="DESIGN.md §4.9, §5/C08, §8.2",
+        note="Trusted: TLC, dash 0.5.12 and bash 5.2, quoted here-documents, the NUL-framed dump and projection in "
+             "vp/c08.py, harness op convert. Names are plain identifiers; exec's `set -euo pipefail` line replaced by "
+             "`set -eu` for dash. Model and shell disagreement is exit 2, never a verdict.",
+        technique="TLA+ spec (Shell.tla) model-checked with TLC; impl->spec validation of real converter output by the "
+                  "shell machine (ShellTrace.tla); /bin/sh and bash as independent environment",
+    ),
+    "C11": dict(
+        category="model_checking",
+        text="Lexer.tla: the tokenizer of tokenizer/mod.rs (the ordered either! alternation, escapequoted, "
+             "keyword/comment/whitespace recognisers, the byte-wise offset/line/column cursor, the tokenize "
+             "loop), transcribed one call of `token` per step, is model-checked against maximal munch over the "
+             "documented token set with positions recomputed from the prefix (PosTruth, Progress, Monotone, "
+             "LongestOp, Layout, AlgEqualsRef) for ALL pairs (thorough: all triples) of a 71-token vocabulary "
+             "x separators {none, SP, LF, CRLF, TAB, comment} and ALL string bodies <= 4 (5) over 12 characters "
+             "with every escape form and 2/3/4-byte UTF-8; random sequences/programs <= 40 tokens with random "
+             "layout are simulated. Every explored input is replayed into ucglib::tokenizer::tokenize and the "
+             "(typ, fragment, offset, line, column) list compared with the predicted one; programs are parsed "
+             "under two layouts (same AST), string literals evaluated (value = Decode(body) byte for byte).",
+        design_ref="DESIGN.md §4.5, §5/C11, Appendix A Tokenizer",
+        note="Trusted: TLC, the spelling of abstract characters and the comparison in vp/c11.py, the harness "
+             "projection. Don't-cares: true/false/NULL glued to symbol characters; byte- or character-based "
+             "columns after multi-byte text; a comment glued to `/`. Triples use 4 of the 6 separators.",
+        technique="TLA+ spec (Lexer.tla) model-checked and simulated with TLC; spec->impl replay of every explored input",
+    ),
+    "C15": dict(
+        category="model_checking",
+        text="DataModel.tla: FromDoc (ints stay ints, other numbers floats; TOML has no null), the importers transcribed "
+             "with deviations, and the include hook as an outcome table over 8 types x {empty, malformed, text, binary, "
+             "missing}; TLC checks RoundTrip, ImportAgrees and IncludeAgrees (Deviations={}). Every abstract document "
+             "(<=3/<=4 nodes exhaustive, simulation depth 5) is serialised independently of ucg (json.dumps styles, own "
+             "YAML and TOML emitters), cross-checked with the independent decoder, included through `let v = include <t> "
+             "\"f\";` via FileBuilder::build, and the bound Val (int/float distinct, float bits) compared with the "
+             "prediction. Two damaged variants per file: rejected by the decoder => must be a build error. The include "
+             "table covers str/b64/b64urlsafe (Python base64), empty, binary, missing files and unknown types.",
+        design_ref="DESIGN.md §4.10, §5/C15, §6",
+        note="Trusted: TLC, the emitters (every file is cross-checked), Python json/tomllib/base64, PyYAML under YAML 1.1 "
+             "and 1.2 core schema, harness Val projection. Variants outside the subset on which the decoders agree are "
+             "counted in the evidence, not judged. Key order is not compared.",
+        technique="TLA+ spec (DataModel.tla) model-checked with TLC; spec->impl replay of every explored document and of "
+                  "the include table; independent encoders and decoders as environment",
+    ),
+    "C20": dict(
+        category="model_checking",
+        text="Lsp.tla: the session machine of `ucg lsp` (open documents, workspace index, in-flight messages, outbox; "
+             "one action per main_loop iteration; Diag(text, environment) uninterpreted) is model-checked for the design "
+             "(Deviations = {}): Alive, EveryRequestAnsweredOnceInOrder, PublishAfterSync, CloseClears, CurrentTextOnly, "
+             "GhostFree and the action property HandleMeetsDue, exhaustively for <=3 documents, <=4 text ids, sessions "
+             "<=6, and every named deviation must give a TLC counterexample session. TLC -simulate draws sessions of "
+             "1..30 messages, refined per seed to generated / token-mutated / type-error programs, arbitrary UTF-8 "
+             "(non-ASCII, CRLF) and repo .ucg files, with positions per class; each is driven into a real `ucg lsp` "
+             "process over stdio and the recorded JSON-RPC traffic - plus what a brand-new server publishes on the same "
+             "text and what the compiler's parser/build says - is accepted or rejected by LspTrace.tla. The driver checks "
+             "that every range of every response / diagnostic lies inside the document it refers to.",
+        design_ref="DESIGN.md §4.12, §2.6, §5/C20, §8.2",
+        note="Trusted: TLC + CommunityModules Json/IOUtils, vp/lspclient.py framing, the UTF-16 geometry and text "
+             "generator in vp/c20gen.py, harness parse/build as the compiler oracle. Sessions reaching the code are "
+             "sampled (simulation), the design is exhaustive in the stated bound. Open findings are switched on as "
+             "deviations in the trace machine and reported as KNOWN-FINDING.",
+        technique="TLA+ spec (Lsp.tla) model-checked and simulated with TLC; impl->spec trace validation of recorded "
+                  "JSON-RPC sessions (LspTrace.tla)",
     ),
 }
 
